@@ -22,6 +22,7 @@ def run(ctx):
 
 # ---------------------------------------------------------------------------------------------
 from .. import mac, e3
+from ..mac import Access
 from ..e1 import Rat, rewrite
 from .common import top_stmts_of, mentions_field
 
@@ -331,14 +332,20 @@ def r1(ctx):
 def r2(ctx):
     c = ctx.crate
     gex = mac.extract(c, ctx.fn("convolution::Convolution::convolve_gradients"))
-    ya = [v for h, v in gex.allocs.items() if gex.names[h] == "y"]
+    # the buffer the kernel gradient is accumulated into (whatever it is called): the 4-D target of the stores
+    tg = {s_.target.hid for s_ in gex.stmts if isinstance(s_.target, Access) and len(s_.target.idx) == 4}
+    ya = [v for h, v in gex.allocs.items() if h in tg] if len(tg) == 1 else []
     ctx.check("R08.2", "Convolution:kernel-gradient-shape", bool(ya) and [str(z) for z in ya[0]] == ["len(b)", "len(a)", "kernel.0", "kernel.1"], "kernel-gradient-alloc:" + str(ya),
               "convolution::Convolution::convolve_gradients", "dK allocated as |delta channels| x |input channels| x kernel.0 x kernel.1")
     bfn = ctx.fn("convolution::Convolution::backward")
     call = [x for x in walk(bfn["body"]) if x.get("k") == "mcall" and x["callee"] == "convolution::Convolution::convolve_gradients"]
     okc = False
     if call:
-        kk = strip(call[0]["args"][2])
+        from ..hir import resolve as _rs8, let_table as _lt8
+        kk = strip(_rs8(call[0]["args"][2], _lt8(bfn["body"])))      # `&(kh, kw)` or a named pair
+        while kk is not None and kk.get("k") == "ref":
+            kk = strip(kk["x"])
+        kk = strip(_rs8(kk, _lt8(bfn["body"])))
         bex = mac.extract(c, bfn)
         vals = [str(e1.Norm(c, bex.env).norm(z)) for z in kk["xs"]] if kk.get("k") == "tup" else []
         okc = vals == ["self.kernels[0].shape.1", "self.kernels[0].shape.2"]
